@@ -95,6 +95,8 @@ def pp(x) -> str:
         return "(" + ", ".join(pp(v) for v in a[0]) + ")"
     if k == "cast":
         return f"<{a[0]}>{pp(a[1])}"
+    if k == "cond":
+        return f"({pp(a[1])} if {pp(a[0])} else {pp(a[2])})"
     return f"<{k} {a}>"
 
 
@@ -339,7 +341,7 @@ class _Conv:
         if tn == "ImportNode":
             return X("other", "import", line=line)
         if tn == "CondExprNode":
-            return X("cond", self.expr(n.test), self.expr(n.true_val),
+            return X("cond", self.expr(getattr(n, "test", None) or n.condition), self.expr(n.true_val),
                      self.expr(n.false_val), line=line)
         self.mod.unhandled.append(f"expr {tn} at line {line}")
         return X("other", tn, line=line)
